@@ -44,6 +44,16 @@ PLAN = {
             {"run": "TestC02_Procs", "checks": 400, "shards": 2, "timeout": 3000},
         ],
     },
+    "C03": {
+        "quick": [
+            {"run": "TestC03_Scan", "checks": 5000},
+            {"run": "TestC03_Shipped", "checks": 60},
+        ],
+        "thorough": [
+            {"run": "TestC03_Scan", "checks": 200000, "shards": 14, "timeout": 3000},
+            {"run": "TestC03_Shipped", "checks": 1000, "shards": 2, "timeout": 3000},
+        ],
+    },
     "C12": {
         "quick": [
             {"run": "TestC12_Model", "checks": 4000},
